@@ -254,13 +254,29 @@ def run(ctx, chk):
         flt = mp = None
         for p in ps:
             names = [ef['callee'].split('::')[-1] for ef in p.effects if ef['kind'] == 'call' and not ef['tracing']]
-            for ef in p.effects:
+            def sends(cl):
+                """does this closure / function value (transitively) send a message?"""
+                cb_ = None
+                if cl[0] == 'agg' and isinstance(cl[1], str) and cl[1].startswith('closure:'):
+                    cb_ = fb.body(cl[1][len('closure:'):])
+                elif cl[0] == 'fn':
+                    cb_ = fb.body(mir.callee_name(cl[1]))
+                return cb_ is not None and common.reaches_call(fb, cb_, lambda n_: n_.endswith(('Sender::<T>::send', 'DispatchBox::<K, M>::send')))
+            for ei, ef in enumerate(p.effects):
                 if ef['kind'] != 'call':
                     continue
                 nm = ef['callee'].split('::')[-1]
-                if nm == 'filter':
+                # the chain that matters is the one whose `map` / `for_each` closure does the sending; its filter is the
+                # `filter` call that chain is built on (other iterator chains in the function -- counting results for a
+                # log line -- are not the broadcast)
+                if nm == 'map' and len(ef['args']) > 1 and sends(ef['args'][1]):
+                    mp = ef['args'][1]
+                    for ej, ef2 in enumerate(p.effects[:ei]):
+                        if ef2['kind'] == 'call' and ef2['callee'].split('::')[-1] == 'filter' and ('filter#%d(' % ej) in fmt(ef['args'][0]):
+                            flt = ef2['args'][1]
+                elif nm == 'filter' and flt is None and mp is None:
                     flt = ef['args'][1]
-                if nm == 'map':
+                elif nm == 'map' and mp is None:
                     mp = ef['args'][1]
                 on_chain = any(x in fmt(ef['args'][0]) for x in ('map#', 'filter#', 'keys#')) if ef['args'] else False
                 if nm == 'for_each' and on_chain and 'map#' not in fmt(ef['args'][0]) and len(ef['args']) > 1:
